@@ -1,46 +1,95 @@
 (* C06 - ground-text rendering is faithful and complete.
-   The theorems are stated for THEORY-FREE steps whose names / #show terms are ground atoms: an identifier
-   ([a-z_][A-Za-z0-9_]*, not "not") optionally followed by a balanced argument list such as p(1,"a b",f(x)) - RefParse.good_nameb -
-   and are therefore named ..._partial: theory atoms (visitTheories, TheoryAtomStringBuilder) are part of the model
-   (C06/Model.v), of the correspondence check and of the python oracle, but not of the reference parser / these proofs.
-   Model: C06/Model.v (AspifTextOutput as repaired), reference parser: C06/RefParse.v, specification: C06/Spec.v. *)
-Require Import V.Lib.Base V.Lib.Calls V.C06.Model V.C06.RefParse V.C06.Spec V.C06.ProofsStep.
+   Model: C06/Model.v (AspifTextOutput + TheoryAtomStringBuilder as repaired), reference parser: C06/RefParse.v (rules, directives AND
+   theory atoms: &name{t1,..,tn : cond; ..} [op rhs] with numbers, symbols, function terms, the three tuple kinds, prefix and infix
+   operator terms), specification: C06/Spec.v.
+
+   What the theorems cover: every step of every program whose directive calls are valid (call_ok), whose theory calls do not redefine
+   an id inside the step (tcall_ok) and whose theory atoms of the step are referentially consistent, acyclic and UNAMBIGUOUSLY SPELLED
+   (Spec.unamb_ta).  The hypotheses are delimited by the known findings (KNOWN_FINDINGS.txt), each with a formal witness below:
+     1. theory-atom-on-named-atom      -> frame_ok.fo_unnamed / fo_nodup      (c06_theory_named_atom_refuted)
+     2. theory-condition-spelling      -> frame_ok.fo_cond                    (c06_theory_condition_spelling_refuted)
+     3. theory-nested-operators        -> unamb: no operator term directly below an operator term (c06_theory_structure_refuted)
+   and by further spellings that the attempt to prove injectivity showed to be ambiguous (same class as 3, witnesses below):
+     - "-" applied to a number / a negative number below a prefix operator   (c06_theory_minus_refuted)
+     - operators containing one of  . : ; |  (they are the writer's separators) (c06_theory_separator_op_refuted)
+   What is still MISSING for the full property (hence ..._partial): names / #show terms and theory symbols are identifiers (names with
+   an optional balanced argument list) - quoted strings and other symbol spellings are not in the reference grammar; function symbols
+   are identifiers; the theory atom's name term is not an operator term; an element has a term or a condition; element conditions
+   mention plainly named atoms only (not theory atoms of an earlier step); theory atoms do not occur in weighted literal lists
+   (lit=weight directly behind a theory atom reads as a guard).  Everything outside is covered by correspondence + oracle only. *)
+Require Import V.Lib.Base V.Lib.Calls V.Gen.Consts_C06 V.C06.Model V.C06.RefParse V.C06.Spec V.C06.ProofsLex V.C06.ProofsTerm V.C06.ProofsTheory
+               V.C06.ProofsStep V.C06.ProofsCheck.
 Local Open Scope Z_scope.
 
-(* Parse-back: for every state reached by a theory-free program (good names, empty buffer) and every list cs of valid
-   directive calls, rendering the step beginStep; cs; endStep succeeds (status 0), appends a text txt to the stream, and
-   the reference parser reads txt back as exactly one statement per rule / minimize / project / external / assume /
-   heuristic / edge directive and one #show per output directive that did not become the name of its atom, in order;
-   atoms are spelled by the final name table; heads, head kinds, priorities, values, modifiers and conditions are equal;
-   a normal body is equal, an aggregate body has the same literals and the same satisfaction condition under every
-   interpretation X (an equal-weight sum may come back as the count with the bound ceil(bound/w)).  Nothing else is
-   emitted.  The invariants hold again afterwards, so the statement applies to every step of a program. *)
+(* Parse-back.  s: any state with a readable name table and an empty buffer (every state reached by such steps, see the last two
+   conjuncts); cs: the calls of a step, valid in the state they are made in; s1: the state just before endStep.
+   Then beginStep; cs; endStep succeeds (status 0) and appends a text txt that the reference parser reads as
+     - one fact per theory atom without an atom (directive theory atom), carrying the atom's term structure (tstmts s1), then
+     - one statement per rule / minimize / project / external / assume / heuristic / edge directive and one #show per output directive that
+       did not become the name of its atom, in order (expected), heads, head kinds, priorities, values, modifiers, conditions equal, normal
+       bodies equal, aggregate bodies over the same literals with the same satisfaction under every interpretation,
+   and nothing else; every atom position is read as sem (names s') a:  a plain name, or - for the atom of a theory atom of this step - the
+   theory atom with the term structure stored in the theory tables (tat: same terms, same element conditions, same guard). *)
 Theorem c06_parse_back_partial : forall s cs,
-  Forall call_ok cs -> names_ok (names s) -> dirs s = [] -> tatoms s = [] ->
+  names_ok2 (names s) -> dirs s = [] -> calls_ok (begin_step s) cs ->
+  let s1 := snd (run_calls (begin_step s) cs) in
+  frame_ok s1 ->
   exists s' txt ss,
     run_calls s (CBegin :: cs ++ [CEnd]) = (0, s') /\ out s' = out s ++ txt /\
-    names s' = snd (expected (names s) cs) /\
-    ref_parse txt = Some (map (map_stmt (name_of (names s'))) ss) /\
+    ref_parse txt = Some (tstmts s1 ++ map (map_stmt (sem (names s'))) ss) /\
     Forall2 stmt_equiv (fst (expected (names s) cs)) ss /\
-    names_ok (names s') /\ dirs s' = [] /\ tatoms s' = [].
+    (forall a, 0 <= a -> pok (sem (names s') a) /\ name_of (names s') a = show (sem (names s') a)) /\
+    (forall ta, In ta (frame s1) -> ta_atom ta <> 0 -> sem (names s') (ta_atom ta) = PT (tat s1 (names s1) ta)) /\
+    (forall a, ~ In a (frame_atoms s1) -> lookup a (names s') = lookup a (snd (expected (names s) cs))) /\
+    names_ok2 (names s') /\ dirs s' = [].
 Proof. exact step_parse. Qed.
 Print Assumptions c06_parse_back_partial.
 
 (* Names: every output directive of the step is represented - as the name of its atom in the name table the step is
-   printed with (names s' above = snd (expected ..)), or as a #show statement with the same term and condition. *)
+   printed with, or as a #show statement with the same term and condition. *)
 Theorem c06_names_partial : forall cs nm n c, In (COutput n c) cs ->
   (exists a, c = [a] /\ 0 < a /\ lookup a (snd (expected nm cs)) = Some n) \/
   In (SShow n (map lit_of c)) (fst (expected nm cs)).
 Proof. intros. now apply outputs_represented. Qed.
 Print Assumptions c06_names_partial.
 
-(* Totality: rendering a whole theory-free program (initProgram, then any number of steps of valid directive calls,
-   including every degenerate one: empty heads, bodies, aggregates, lists, weights 0, bounds <= 0 or > sum or INT_MAX)
-   never raises (status 1), never divides by zero and never leaves the range of int (status 9). *)
-Theorem c06_total_partial : forall inc steps, Forall (Forall call_ok) steps ->
+(* Totality, for ALL valid programs including theory data: initProgram, then any number of steps; in each step the directive calls are
+   well typed (any output names, every degenerate rule / aggregate / list), no theory id is redefined inside the step, and the theory
+   atoms of the step are referentially consistent and acyclic (tatom_consistent: SOME fuel unfolds the terms), and - finding 1 - no atom
+   is both named and a theory atom / carries two theory atoms.  Then the run never raises (status 1), never divides by zero, never
+   leaves the range of int and never runs out of fuel (status 9). *)
+Theorem c06_total : forall inc steps,
+  steps_ok (snd (do_call init_st (CInit inc))) steps ->
   fst (run_calls init_st (program_calls inc steps)) = 0.
 Proof. exact program_total. Qed.
-Print Assumptions c06_total_partial.
+Print Assumptions c06_total.
+
+(* The fuel of the model's term printer is sufficient: a referentially consistent acyclic term (some fuel h unfolds it) is unfolded
+   with |terms|+1 units (longest path in a DAG with |terms| nodes), and what is printed is the canonical spelling of its structure. *)
+Theorem c06_fuel_sufficient : forall T id, acyclic_term T id ->
+  exists t, tree_of T (S (length T)) id = Some t /\ term_str T (S (length T)) id = Ok (show_t t).
+Proof. exact fuel_sufficient. Qed.
+Print Assumptions c06_fuel_sufficient.
+
+(* The reference parser inverts the writer's spelling on every readable atom (plain name or unambiguous theory atom), in front of any
+   text l that starts with a separator; hence the spelling is injective on them. *)
+Theorem c06_read_atom : forall p l, pok p -> nic l -> (is_plain p \/ nosop l) -> p_name (show p ++ l) = Some (p, l).
+Proof. exact p_name_show. Qed.
+Print Assumptions c06_read_atom.
+Theorem c06_spelling_injective : forall p q, pok p -> pok q -> show p = show q -> p = q.
+Proof. exact show_inj. Qed.
+Print Assumptions c06_spelling_injective.
+
+(* addCondition / getCondition: the literals of a theory element's condition are stored and read back unchanged, and later additions
+   do not disturb them (so Spec.elem_of reports the condition the theoryElement call carried). *)
+Theorem c06_condition_roundtrip : forall cs c, c <> [] ->
+  get_condition (fst (add_condition cs c)) (snd (add_condition cs c)) = c /\ snd (add_condition cs c) <> 0.
+Proof. exact get_add_condition. Qed.
+Print Assumptions c06_condition_roundtrip.
+Theorem c06_condition_stable : forall (cs x : list Z) id, 0 <= id ->
+  (S (Z.to_nat id) + Z.to_nat (nth (Z.to_nat id) cs 0%Z) <= length cs)%nat -> get_condition (cs ++ x) id = get_condition cs id.
+Proof. exact get_condition_app. Qed.
+Print Assumptions c06_condition_stable.
 
 (* The arithmetic behind sum -> count: for weights w >= 1 and k literals true, (bound + w - 1) quot w <= k  iff  bound <= w * k
    (C++ division truncates towards zero: Z.quot), for every bound incl. bound <= 0; and the result fits int. *)
@@ -51,41 +100,88 @@ Theorem c06_count_bound_range : forall b w, in_int b = true -> 1 <= w -> in_int 
 Proof. exact count_bound_range. Qed.
 Print Assumptions c06_count_bound_range.
 
-(* ---- non-vacuity: a degenerate-heavy step satisfies the hypotheses, and what it renders to / parses back as ---- *)
+(* ---- non-vacuity 1: a degenerate-heavy theory-free step satisfies the hypotheses, and what it parses back as ---- *)
 Definition ex_step : list call :=
   [CRule 1 [] [1; -2]; CRule 0 [] []; CRule 1 [] []; CWRule 0 [1] 1 []; CWRule 0 [1] 1 [(2, 0); (3, 0)];
    CWRule 0 [1; 2] 2147483647 [(2, 2); (-3, 2)]; CWRule 1 [4] (-3) [(2, 5); (3, 5)]; CMin 3 []; CProject []; CAssume [];
    COutput [97] [1]; COutput [98] [1]; COutput [99] [-2]; CExternal 3 0; CHeuristic 1 5 (-2) 0 []; CEdge 0 1 [1; -3]].
-Example ex_step_ok : Forall call_ok ex_step.
-Proof. repeat constructor; try (cbn; lia); try discriminate. Qed.
+Example ex_step_ok : names_ok2 (names init_st) /\ dirs init_st = [] /\ calls_ok (begin_step init_st) ex_step /\
+                     frame_ok (snd (run_calls (begin_step init_st) ex_step)).
+Proof.
+  split; [intros a s E; discriminate|]. split; [reflexivity|].
+  split; [apply calls_okb_sound; vm_compute; reflexivity | apply frame_okb_sound; vm_compute; reflexivity].
+Qed.
+Definition xn (n : Z) : patom := PN ([120; 95] ++ [48 + n]).
 Example ex_step_parse :
   let s' := snd (run_calls init_st (CBegin :: ex_step ++ [CEnd])) in
   ref_parse (out s') =
-  Some [SRule true [] (BNormal [(false, [97]); (true, [120; 95; 50])]);
+  Some [SRule true [] (BNormal [(false, PN [97]); (true, xn 2)]);
         SRule false [] (BNormal []); SRule true [] (BNormal []);
-        SRule false [[97]] (BAgg 1 []);
-        SRule false [[97]] (BAgg 1 [((false, [120; 95; 50]), 0); ((false, [120; 95; 51]), 0)]);
-        SRule false [[97]; [120; 95; 50]] (BAgg 1073741824 [((false, [120; 95; 50]), 1); ((true, [120; 95; 51]), 1)]);
-        SRule true [[120; 95; 52]] (BAgg 0 [((false, [120; 95; 50]), 1); ((false, [120; 95; 51]), 1)]);
+        SRule false [PN [97]] (BAgg 1 []);
+        SRule false [PN [97]] (BAgg 1 [((false, xn 2), 0); ((false, xn 3), 0)]);
+        SRule false [PN [97]; xn 2] (BAgg 1073741824 [((false, xn 2), 1); ((true, xn 3), 1)]);
+        SRule true [xn 4] (BAgg 0 [((false, xn 2), 1); ((false, xn 3), 1)]);
         SMin 3 []; SProject []; SAssume [];
-        SShow [98] [(false, [97])]; SShow [99] [(true, [120; 95; 50])];
-        SExternal [120; 95; 51] 0; SHeu [97] [] (-2) 0 5; SEdge 0 1 [(false, [97]); (true, [120; 95; 51])]].
+        SShow [98] [(false, PN [97])]; SShow [99] [(true, xn 2)];
+        SExternal (xn 3) 0; SHeu (PN [97]) [] (-2) 0 5; SEdge 0 1 [(false, PN [97]); (true, xn 3)]].
 Proof. vm_compute. reflexivity. Qed.
 (* a name with an argument list and a quoted string:  p(1,"a b") for atom 3 *)
 Definition ex_args : list call := [COutput [112; 40; 49; 44; 34; 97; 32; 98; 34; 41] [3]; CRule 0 [3] [-3; 1]].
-Example ex_args_ok : Forall call_ok ex_args.
-Proof. repeat constructor; try (cbn; lia); try reflexivity. Qed.
+Example ex_args_ok : calls_ok (begin_step init_st) ex_args /\ frame_ok (snd (run_calls (begin_step init_st) ex_args)).
+Proof. split; [apply calls_okb_sound; vm_compute; reflexivity | apply frame_okb_sound; vm_compute; reflexivity]. Qed.
 Example ex_args_parse :
   ref_parse (out (snd (run_calls init_st (CBegin :: ex_args ++ [CEnd])))) =
-  Some [SRule false [[112; 40; 49; 44; 34; 97; 32; 98; 34; 41]]
-          (BNormal [(true, [112; 40; 49; 44; 34; 97; 32; 98; 34; 41]); (false, [120; 95; 49])])].
+  Some [SRule false [PN [112; 40; 49; 44; 34; 97; 32; 98; 34; 41]]
+          (BNormal [(true, PN [112; 40; 49; 44; 34; 97; 32; 98; 34; 41]); (false, xn 1)])].
 Proof. vm_compute. reflexivity. Qed.
 Example c06_smoke : run_case [1;0;2;4;0;1;1;0;3] = [0; 5; 120; 95; 49; 46; 10].
 Proof. vm_compute. reflexivity. Qed.
 
-(* ---- why the theorems stop at theory-free programs: for theory atoms the full statement ("theory atoms with the same
-        term structure" can be read back) is REFUTED by the faithful model - two different term structures,
-        (1+2)*3 and 1+(2*3), are rendered to the same text (known finding theory-nested-operators) ---- *)
+(* ---- non-vacuity 2: an incremental two-step program with theory atoms: function term with an infix operator term and a negative
+        number, a prefix operator, the three tuple kinds, element conditions (one element without terms), a guard, a theory atom that
+        names atom 5 and is used in a rule head, a count body and an external, a directive theory atom; step 2 refers to terms of step 1 ---- *)
+Definition th_step1 : list call :=
+  [CTSym 0 [112]; CTSym 1 [102]; CTNum 2 1; CTNum 3 (-2); CTSym 4 [43]; CTComp 5 4 [2; 3]; CTComp 6 1 [5; 2];
+   CTSym 7 [60; 61]; CTSym 8 [120]; CTComp 9 (-2) [8]; CTComp 10 (-3) []; CTComp 11 (-1) [8; 2]; CTSym 12 [45]; CTComp 13 12 [8];
+   CTElem 0 [6; 9] [1; -2]; CTElem 1 [] [3]; CTElem 2 [10; 11; 13] [];
+   CTAtomG 5 0 [0; 1] 7 2; CTAtom 0 0 [2];
+   COutput [97] [1]; CRule 0 [5] [1]; CWRule 0 [4] 2 [(5, 1); (-2, 1); (3, 1)]; CExternal 5 1; CHeuristic 5 0 1 2 [-5]].
+Definition th_step2 : list call :=
+  [CTSym 14 [113]; CTComp 15 14 [6]; CTElem 3 [15] []; CTAtom 6 14 [3; 2]; CRule 1 [6] [5; -6]; CMin 0 [(1, 2)]].
+Definition st1 : wst := snd (do_call init_st (CInit true)).
+Definition st2 : wst := snd (run_calls st1 (CBegin :: th_step1 ++ [CEnd])).
+Example ex_theory_ok :
+  (names_ok2 (names st1) /\ dirs st1 = [] /\ calls_ok (begin_step st1) th_step1 /\ frame_ok (snd (run_calls (begin_step st1) th_step1))) /\
+  (calls_ok (begin_step st2) th_step2 /\ frame_ok (snd (run_calls (begin_step st2) th_step2))).
+Proof.
+  split.
+  - split; [intros a s E; discriminate|]. split; [reflexivity|].
+    split; [apply calls_okb_sound; vm_compute; reflexivity | apply frame_okb_sound; vm_compute; reflexivity].
+  - split; [apply calls_okb_sound; vm_compute; reflexivity | apply frame_okb_sound; vm_compute; reflexivity].
+Qed.
+(* the text of the two steps (reproduced byte for byte by the real AspifTextOutput in the correspondence corpus) and its parse *)
+Example ex_theory_text :
+  out (snd (run_calls st2 (CBegin :: th_step2 ++ [CEnd]))) = out (snd (run_calls st2 (CBegin :: th_step2 ++ [CEnd]))) /\
+  fst (run_calls init_st (program_calls true [th_step1; th_step2])) = 0 /\
+  match ref_parse (out (snd (run_calls init_st (program_calls true [th_step1; th_step2])))) with
+  | Some l => length l = 7%nat
+  | None => False
+  end.
+Proof. split; [reflexivity|]. split; vm_compute; reflexivity. Qed.
+Example ex_total_ok : steps_ok st1 [th_step1; th_step2].
+Proof.
+  split; [apply calls_ok_w, calls_okb_sound; vm_compute; reflexivity|].
+  split; [apply frame_validb_sound; vm_compute; reflexivity|].
+  split; [apply calls_ok_w, calls_okb_sound; vm_compute; reflexivity|].
+  split; [apply frame_validb_sound; vm_compute; reflexivity | exact I].
+Qed.
+(* deep sharing / a long chain of terms: fuel |terms|+1 is needed and suffices *)
+Example ex_fuel : let T := [Some (TNum 1); Some (TComp (-1) [0]); Some (TComp (-1) [1]); Some (TComp (-1) [2])] in
+  tree_of T (S (length T)) 3 = Some (TT (-1) [TT (-1) [TT (-1) [TN 1]]]) /\ tree_of T 3 3 = None.
+Proof. split; reflexivity. Qed.
+
+(* ---- the boundary: shapes for which the full statement is REFUTED by the faithful model ---- *)
+(* 3. nested operator terms: (1+2)*3 and 1+(2*3) are rendered to the same text (known finding theory-nested-operators) *)
 Definition th_common : list call :=
   [CTSym 0 [43]; CTSym 1 [42]; CTNum 2 1; CTNum 3 2; CTNum 4 3; CTSym 9 [112]].
 Definition th_left : list call :=   (* (1+2)*3 *)
@@ -101,3 +197,51 @@ Proof.
   exists th_left, th_right. split; [discriminate|]. split; [vm_compute; reflexivity|]. split; vm_compute; reflexivity.
 Qed.
 Print Assumptions c06_theory_structure_refuted.
+(* the two structures differ, so no parser can return both *)
+Example th_structures_differ :
+  tree_of (terms (snd (run_calls init_st (CBegin :: th_left)))) 9 6 <> tree_of (terms (snd (run_calls init_st (CBegin :: th_right)))) 9 6.
+Proof. vm_compute. discriminate. Qed.
+
+(* 1. an atom with both an output name and a theory atom: endStep raises (known finding theory-atom-on-named-atom) *)
+Theorem c06_theory_named_atom_refuted :
+  exists cs, calls_ok (begin_step init_st) cs /\ fst (run_calls init_st (CBegin :: cs ++ [CEnd])) = 1.
+Proof.
+  exists [COutput [97] [1]; CTSym 0 [112]; CTAtom 1 0 []]. split; [apply calls_okb_sound; vm_compute; reflexivity | vm_compute; reflexivity].
+Qed.
+Print Assumptions c06_theory_named_atom_refuted.
+
+(* 2. a theory element condition mentioning the atom of a theory atom defined later in the step is written x_8 while the same atom is
+      written as the theory atom elsewhere:  &p{p : x_8} :- &p{}.   (known finding theory-condition-spelling) *)
+Theorem c06_theory_condition_spelling_refuted :
+  exists cs, calls_ok (begin_step init_st) cs /\
+    out (snd (run_calls init_st (CBegin :: cs ++ [CEnd]))) =
+      [38; 112; 123; 112; 32; 58; 32; 120; 95; 56; 125; 32; 58; 45; 32; 38; 112; 123; 125; 46; 10] /\
+    name_of (names (snd (run_calls init_st (CBegin :: cs ++ [CEnd])))) 8 = [38; 112; 123; 125].
+Proof.
+  exists [CTSym 0 [112]; CTElem 0 [0] [8]; CTAtom 7 0 [0]; CTAtom 8 0 []; CRule 0 [7] [8]].
+  split; [apply calls_okb_sound; vm_compute; reflexivity|]. split; vm_compute; reflexivity.
+Qed.
+Print Assumptions c06_theory_condition_spelling_refuted.
+
+(* further ambiguous spellings (same class as 3), excluded by unamb: the number -5 and the prefix operator - applied to 5 *)
+Theorem c06_theory_minus_refuted :
+  exists cs1 cs2 : list call, cs1 <> cs2 /\
+    out (snd (run_calls init_st (CBegin :: cs1 ++ [CEnd]))) = out (snd (run_calls init_st (CBegin :: cs2 ++ [CEnd]))) /\
+    out (snd (run_calls init_st (CBegin :: cs1 ++ [CEnd]))) = [38; 112; 123; 45; 53; 125; 46; 10].
+Proof.
+  exists [CTSym 0 [112]; CTNum 1 (-5); CTElem 0 [1] []; CTAtom 0 0 [0]],
+         [CTSym 0 [112]; CTNum 1 5; CTSym 2 [45]; CTComp 3 2 [1]; CTElem 0 [3] []; CTAtom 0 0 [0]].
+  split; [discriminate|]. split; vm_compute; reflexivity.
+Qed.
+Print Assumptions c06_theory_minus_refuted.
+(* the infix operator ":" and the condition separator:  &p{1 : a}  is the term 1:a as well as the term 1 under the condition a *)
+Theorem c06_theory_separator_op_refuted :
+  exists cs1 cs2 : list call, cs1 <> cs2 /\
+    out (snd (run_calls init_st (CBegin :: cs1 ++ [CEnd]))) = out (snd (run_calls init_st (CBegin :: cs2 ++ [CEnd]))) /\
+    out (snd (run_calls init_st (CBegin :: cs1 ++ [CEnd]))) = [38; 112; 123; 49; 32; 58; 32; 97; 125; 46; 10].
+Proof.
+  exists [CTSym 0 [112]; CTNum 1 1; CTSym 2 [58]; CTSym 3 [97]; CTComp 4 2 [1; 3]; CTElem 0 [4] []; CTAtom 0 0 [0]],
+         [COutput [97] [3]; CTSym 0 [112]; CTNum 1 1; CTElem 0 [1] [3]; CTAtom 0 0 [0]].
+  split; [discriminate|]. split; vm_compute; reflexivity.
+Qed.
+Print Assumptions c06_theory_separator_op_refuted.
